@@ -21,6 +21,9 @@ try:
     # a script that pins the agent's own worktree path is pointed at this worktree instead
     open(os.path.join(wt, f"check_R{k}.py"), "w").write(open(chk).read().replace(sd.rstrip("/"), wt))
     shutil.copy(diff, os.path.join(wt, f"R{k}.diff"))
+    for extra in os.listdir(sd):            # helper modules the agent's check scripts share
+        if extra.endswith(".py") and not extra.startswith(("check_", "demo_")) and os.path.isfile(os.path.join(sd, extra)):
+            open(os.path.join(wt, extra), "w").write(open(os.path.join(sd, extra)).read().replace(sd.rstrip("/"), wt))
     rc = subprocess.run(["/venv/bin/python", "-W", "ignore", f"check_R{k}.py"], cwd=wt, capture_output=True, text=True, timeout=1800)
     out["check_exit"] = rc.returncode
     out["check_tail"] = (rc.stdout + rc.stderr)[-300:]
@@ -56,6 +59,9 @@ if ok:
     dst = "/verif/seeded/refactorings"
     shutil.copy(os.path.join(sd, f"R{k}.diff"), f"{dst}/{grp}-R{k}.diff")
     shutil.copy(os.path.join(sd, f"check_R{k}.py"), f"{dst}/{grp}-check_R{k}.py")
+    for extra in os.listdir(sd):
+        if extra.endswith(".py") and not extra.startswith(("check_", "demo_")) and os.path.isfile(os.path.join(sd, extra)):
+            shutil.copy(os.path.join(sd, extra), f"{dst}/{grp}-{extra}")
     if os.path.exists(os.path.join(sd, "NOTES.md")):
         shutil.copy(os.path.join(sd, "NOTES.md"), f"{dst}/{grp}-NOTES.md")
 print(json.dumps(out, indent=1))
